@@ -313,6 +313,10 @@ func (m *machine) step(ins instr) int {
 		if pan {
 			return stViolated
 		}
+		if m.defect == sigConstLevel0 && err != nil {
+			c.Cover("rejected", "Mul:level too low to scale the constant by two primes")
+			return stEnd
+		}
 		switch x.class {
 		case "ct", "pt":
 			b := x.reg
@@ -392,6 +396,10 @@ func (m *machine) step(ins instr) int {
 		if pan {
 			return stViolated
 		}
+		if m.defect == sigConstLevel0 && err != nil {
+			c.Cover("rejected", "MulThenAdd:level too low to scale the constant by two primes")
+			return stEnd
+		}
 		prodV := func(q cklib.Vec) cklib.Vec {
 			return cklib.Map2(a.v, cklib.Map2(s.v, q, func(p, q cklib.C) cklib.C { return p.Mul(q) }), func(p, q cklib.C) cklib.C { return p.Add(q) })
 		}
@@ -447,6 +455,12 @@ func (m *machine) step(ins instr) int {
 					c.Cover("mta-scale-up", "integer-ratio")
 				}
 				n.eps = a.eps*(1+d) + a.v.MaxAbs()*d + pe
+				if !ratio.IsInt() {
+					// repaired behaviour: opOut is multiplied by floor(ratio) (exactly) and takes the product's scale,
+					// so it appears multiplied by k/ratio: truncation term |1-k/ratio|·|v_acc| as for Add
+					kr := ratF(ratQuo(new(big.Rat).SetInt(floorRat(ratio)), ratio))
+					n.eps = a.eps*kr + math.Abs(1-kr)*a.v.MaxAbs() + pe
+				}
 			} else {
 				// ratio in [1,2): opOut is left alone; the product (true scale res) is read at opOut's scale and
 				// appears multiplied by ratio: mismatch term |ratio-1|·|v1·v2|
@@ -666,7 +680,14 @@ func (m *machine) step(ins instr) int {
 		if pan {
 			return stViolated
 		}
-		if ratio.IsInt() {
+		// The evaluator converts the ratio to the encoding precision before deciding whether it is an integer: a
+		// non-integer ratio above 2^precision becomes one (relative change 2^-precision, accounted below).
+		ratioAsSeen := new(big.Float).SetPrec(e.x.Params.EncodingPrecision()).SetRat(ratio)
+		if ratio.IsInt() || ratioAsSeen.IsInt() {
+			if !ratio.IsInt() {
+				m.defect = ""
+				n.eps = a.eps + a.v.MaxAbs()*2*e.x.NB.EncEps
+			}
 			// integer ratio: exact multiplication, nothing to rescale
 			if err != nil && a.level == 0 {
 				return m.forbidden(ins, "level 0") // the inner RescaleTo refuses level 0
@@ -717,6 +738,11 @@ func (m *machine) step(ins instr) int {
 			func() (*rlwe.Ciphertext, error) { return ev.ScaleUpNew(a.ct, scaleOfRat(f)) })
 		if pan {
 			return stViolated
+		}
+		if !f.IsInt() && err != nil {
+			// the multiplication is carried out with an integer: refusing a fractional scale is a clean rejection
+			c.Cover("rejected", "ScaleUp:non-integer scale")
+			return stEnd
 		}
 		if err != nil {
 			return m.unexpectedError(ins, err)
